@@ -212,6 +212,25 @@ func c07scenario(who string, nreq, dups int, immediate bool, cancelPct, abandonP
 		time.Sleep(2 * time.Millisecond)
 	}
 	delivered, multi, wrong, closedAfter, live, liveGot, senderr := 0, 0, 0, 0, 0, 0, 0
+	// what nobody read: a response delivered to a channel whose caller had gone stays in its one-slot buffer
+	drained := 0
+	for _, r := range reqs {
+		if r.ch == nil {
+			continue
+		}
+	drain:
+		for {
+			select {
+			case _, ok := <-r.ch:
+				if !ok {
+					break drain
+				}
+				drained++
+			default:
+				break drain
+			}
+		}
+	}
 	for _, r := range reqs {
 		if r.senderr {
 			senderr++
@@ -233,9 +252,9 @@ func c07scenario(who string, nreq, dups int, immediate bool, cancelPct, abandonP
 			}
 		}
 	}
-	return fmt.Sprintf("panics=%d blocked=%d multi=%d wrong=%d delivered=%d closedafter=%d live=%d livegot=%d ordinary=%d ordinaryreq=%d responses=%d foreign=%d getset=%d pending=%d senderr=%d",
+	return fmt.Sprintf("panics=%d blocked=%d multi=%d wrong=%d delivered=%d closedafter=%d live=%d livegot=%d ordinary=%d ordinaryreq=%d responses=%d foreign=%d getset=%d pending=%d senderr=%d drained=%d",
 		panics, blocked, multi, wrong, delivered, closedAfter, live, liveGot, atomic.LoadInt64(&ordinary), atomic.LoadInt64(&ordinaryReq),
-		atomic.LoadInt64(&responses), foreign, getset, pending, senderr)
+		atomic.LoadInt64(&responses), foreign, getset, pending, senderr, drained)
 }
 
 // c07reuse: a multi-step history with a re-used id. Request A (id X) is answered; request B re-uses X and is
